@@ -237,6 +237,14 @@ def h_pack(fmt):
     return h
 
 
+def _bv(tok, v):
+    # a huge int or an infinity is a value of the documented type only for the numeric dtypes
+    numeric = tok.startswith(('uint', 'int', 'float', 'ue', 'se', 'uie', 'sie', 'bfloat', 'mxint', 'e8m0', 'e4m3', 'e5m2', 'e2m1', 'e3m2', 'e2m3', 'p3', 'p4'))
+    if not numeric and isinstance(v, (int, float)) and not isinstance(v, bool) and (v != v or abs(v) > 2 ** 64):
+        return 0
+    return v
+
+
 def h_dtype(tok):
     def h(K):
         import bitstring
@@ -246,7 +254,7 @@ def h_dtype(tok):
         if not r.ok:
             return K.check(_documented(r.exc), 'an internal (undocumented) exception escaped from Dtype()', exc=r.excname, token=tok)
         d = r.value
-        for what, f in {'str': lambda: str(d), 'repr': lambda: repr(d), 'build': lambda: d.build(K.choice('bv', [0, -1, 'a', 1.5] if LIGHT[0] else [0, 1, -1, 'a', 1.5, None, b'\x00', True])),
+        for what, f in {'str': lambda: str(d), 'repr': lambda: repr(d), 'build': lambda: d.build(_bv(tok, K.choice('bv', [0, -1, 'a', 1.5, 10 ** 400] if LIGHT[0] else [0, 1, -1, 'a', 1.5, None, b'\x00', True, 10 ** 400, float('inf')]))),
                         'parse': lambda: d.parse(bitstring.Bits('0xa5') if LIGHT[0] else mk(K, bitstring.Bits, K.bits('px', 8))), 'eq': lambda: d == bitstring.Dtype('uint8'), 'hash': lambda: hash(d)}.items():
             rr = call(f)
             if not rr.ok and not _documented(rr.exc):
